@@ -1,7 +1,16 @@
 ---------------------------- MODULE TracePng ----------------------------
-(* C04/C16 acceptor for a written .p8.png: sampled pixels (index, RGBA, label RGBA) against the
-   memory layout gfx|map|gff|music|sfx|code area|version and the 2-bit channel packing; the
-   code area (bytes) against the :c: decoder / raw rule. *)
+(* Acceptor for a written .p8.png (C04; pixel clauses shared with C16).
+   Layout of the 0x8000 + 1 data bytes carried by the pixels, in pixel order:
+     gfx | map | gff | music | sfx (= cart memory 0x0000..0x42ff) | code area (0x3d00 bytes) | version
+   Pixel k carries byte k in the two low bits of each channel: A = bits 7:6, R = 5:4, G = 3:2,
+   B = 1:0; the upper six bits of every channel, and all of every pixel beyond the data, equal the
+   label source pixel. The code area is either the raw text (NUL padded) or ":c:\0" len_hi len_lo
+   0 0 stream (Compress format), and holds at most 0x3d00 bytes.
+   Trace record: {focus, outcome: "ok" | "error", mem (0x4300 ints), code, version,
+     rawLen, compLen (the implementation's own compressed size, for the fit rule),
+     area (code-area bytes as found in the pixels, without trailing zero padding),
+     pixels: [{i, r, g, b, a, lr, lg, lb, la}] (sampled; l* = label source pixel),
+     rb: {checked, diff: [[addr, val]], code, version}}. *)
 EXTENDS Integers, Sequences, FiniteSets, TLC, Json, IOUtils, TLCExt
 Traces == JsonDeserialize(IOEnv.TRACE_FILE)
 TableStr == <<10, 32, 48,49,50,51,52,53,54,55,56,57, 97,98,99,100,101,102,103,104,105,106,107,108,109,110,
@@ -9,12 +18,12 @@ TableStr == <<10, 32, 48,49,50,51,52,53,54,55,56,57, 97,98,99,100,101,102,103,10
 VARIABLES tid, phase, k, p, out, verdict
 vars == <<tid, phase, k, p, out, verdict>>
 T == Traces[tid]
-\* expected byte at picodata index i (0-based): regions from mem in cart order, then code area, then version
-\* T.mem is in the ADDRESS order of cart memory, which is also the PNG order: gfx, map, gff, music, sfx
+AreaSize == 15616
+\* expected byte at data index i (0-based)
 ByteAt(i) == IF i < 17152 THEN T.mem[i + 1]
              ELSE IF i < 32768 THEN (IF i - 17152 < Len(T.area) THEN T.area[i - 17152 + 1] ELSE 0)
-             ELSE IF i = 32768 THEN T.version ELSE 0 - 1
-Init == tid \in 1..Len(Traces) /\ phase = "pixels" /\ k = 1 /\ p = 9 /\ out = <<>> /\ verdict = "run"
+             ELSE IF i = 32768 THEN T.version % 256 ELSE 0 - 1
+Init == tid \in 1..Len(Traces) /\ phase = "outcome" /\ k = 1 /\ p = 9 /\ out = <<>> /\ verdict = "run"
 Stop(v) == verdict' = v /\ UNCHANGED <<tid, phase, k, p, out>>
 RECURSIVE CopyBytes(_, _, _)
 CopyBytes(o, off, len) == IF len = 0 THEN o ELSE CopyBytes(Append(o, o[Len(o) - off + 1]), off, len - 1)
@@ -22,8 +31,15 @@ A == T.area
 Text == T.code
 Compressed == Len(A) >= 8 /\ SubSeq(A, 1, 4) = <<58, 99, 58, 0>>
 DeclLen == A[5] * 256 + A[6]
+\* the code fits iff its raw form or its compressed form (8 header bytes + stream) fits the area
+Fits == T.rawLen <= AreaSize \/ T.compLen + 8 <= AreaSize
+OutcomeStep ==
+  IF T.outcome = "error" THEN (IF Fits THEN Stop("refused-fitting-cart") ELSE Stop("ok"))
+  ELSE IF T.focus = "C04" /\ ~Fits THEN Stop("wrote-unfitting-cart")
+  ELSE phase' = "pixels" /\ UNCHANGED <<tid, k, p, out, verdict>>
 PixelStep ==
-  IF k > Len(T.pixels) THEN (IF T.focus = "C16" THEN Stop("ok") ELSE phase' = "code" /\ UNCHANGED <<tid, k, p, out, verdict>>)
+  IF k > Len(T.pixels) THEN
+     (IF T.focus = "C16" THEN Stop("ok") ELSE phase' = "code" /\ UNCHANGED <<tid, k, p, out, verdict>>)
   ELSE LET px == T.pixels[k] b == ByteAt(px.i) IN
     IF px.i <= 32768 /\ (px.r % 4 # (b \div 16) % 4 \/ px.g % 4 # (b \div 4) % 4 \/ px.b % 4 # b % 4 \/ px.a % 4 # b \div 64)
        THEN Stop("pixel-bits")
@@ -31,22 +47,35 @@ PixelStep ==
     ELSE IF px.r \div 4 # px.lr \div 4 \/ px.g \div 4 # px.lg \div 4 \/ px.b \div 4 # px.lb \div 4 \/ px.a \div 4 # px.la \div 4
        THEN Stop("label-bits")
     ELSE k' = k + 1 /\ UNCHANGED <<tid, phase, p, out, verdict>>
+ToRb == phase' = "readback" /\ UNCHANGED <<tid, k, p, out, verdict>>
 CodeStep ==
-  IF Len(A) > 15616 THEN Stop("area-too-long")
+  IF Len(A) > AreaSize THEN Stop("area-too-long")
   ELSE IF ~Compressed THEN
-        LET z == {j \in 1..Len(A) : A[j] = 0} raw == IF z = {} THEN A ELSE SubSeq(A, 1, (CHOOSE j \in z : \A m \in z : j <= m) - 1) IN
-          IF raw = Text THEN Stop("ok") ELSE Stop("raw-mismatch")
+        \* raw: the text itself (it must not contain NUL, and the area is NUL padded)
+        (IF A = Text THEN ToRb ELSE Stop("raw-mismatch"))
   ELSE IF A[7] # 0 \/ A[8] # 0 THEN Stop("header")
   ELSE IF DeclLen # Len(Text) THEN Stop("length-field")
   ELSE IF Len(out) >= DeclLen \/ p > Len(A) THEN
-       (IF SubSeq(out, 1, IF Len(out) < DeclLen THEN Len(out) ELSE DeclLen) = Text THEN Stop("ok") ELSE Stop("text-mismatch"))
+       (IF SubSeq(out, 1, IF Len(out) < DeclLen THEN Len(out) ELSE DeclLen) = Text THEN ToRb ELSE Stop("text-mismatch"))
   ELSE LET b == A[p] IN
-    IF b = 0 THEN out' = Append(out, A[p+1]) /\ p' = p + 2 /\ UNCHANGED <<tid, phase, k, verdict>>
+    IF b = 0 THEN (IF p + 1 > Len(A) THEN Stop("truncated") ELSE out' = Append(out, A[p+1]) /\ p' = p + 2 /\ UNCHANGED <<tid, phase, k, verdict>>)
     ELSE IF b <= 59 THEN out' = Append(out, TableStr[b]) /\ p' = p + 1 /\ UNCHANGED <<tid, phase, k, verdict>>
+    ELSE IF p + 1 > Len(A) THEN Stop("truncated")
     ELSE LET off == (b - 60) * 16 + (A[p+1] % 16)  len == (A[p+1] \div 16) + 2 IN
-      IF off < 1 \/ off > Len(out) THEN Stop("bad-offset") ELSE IF len < 3 THEN Stop("bad-length")
+      IF off < 1 \/ off > Len(out) THEN Stop("bad-offset") ELSE IF len < 3 \/ len > 17 THEN Stop("bad-length")
       ELSE out' = CopyBytes(out, off, len) /\ p' = p + 2 /\ UNCHANGED <<tid, phase, k, verdict>>
-Step == verdict = "run" /\ (IF phase = "pixels" THEN PixelStep ELSE CodeStep)
+\* ---- reading the file back: regions and version identical; code up to the reader's normalisation
+\* (CR -> space, trailing newlines) ----
+Norm(c) == [j \in 1..Len(c) |-> IF c[j] = 13 THEN 32 ELSE c[j]]
+RECURSIVE StripNl(_)
+StripNl(c) == IF c # <<>> /\ c[Len(c)] = 10 THEN StripNl(SubSeq(c, 1, Len(c) - 1)) ELSE c
+RbStep ==
+  IF ~T.rb.checked THEN Stop("ok")
+  ELSE IF T.rb.diff # <<>> THEN Stop("readback-memory")
+  ELSE IF T.rb.version # T.version % 256 THEN Stop("readback-version")
+  ELSE IF StripNl(T.rb.code) # StripNl(Norm(Text)) THEN Stop("readback-code")
+  ELSE Stop("ok")
+Step == verdict = "run" /\ (CASE phase = "outcome" -> OutcomeStep [] phase = "pixels" -> PixelStep [] phase = "code" -> CodeStep [] OTHER -> RbStep)
 Spec == Init /\ [][Step]_vars
 Report == (verdict # "run") => PrintT(<<"VERDICT", tid, verdict, phase, k, p>>)
 =============================================================================
